@@ -59,7 +59,7 @@ class CallGen:
         name = self.ch.choice(["vf", "vF", "satU", "lowBits"], "fname") + f"{self.uid}_{self.n}"
         kind = ch.weighted([("ret_param", 4), ("ret_cast", 3), ("ret_bin", 3), ("local", 3), ("branch", 3), ("postinc", 4),
                             ("nested", 4 if self.value_funcs() else 0), ("loop", 2), ("void_write", 2), ("pc_read", 1), ("ext_write_ret", 3),
-                            ("ret_const", 2), ("mixed_sign", 3)], "fkind")
+                            ("ret_const", 2), ("mixed_sign", 5)], "fkind")
         A = self.cfg == "A"
         if kind == "ret_param":
             P = ch.choice(ALL_T, "P")
@@ -433,6 +433,9 @@ class CallGen:
             f = ch.choice(mixed if mixed and ch.chance(2, 3, "mixed") else two, "f")
             ok_t = [a for a in ALL_T if not (self.cfg == "A" and any(f5a(a, pt) for pt, _ in f["params"]))]
             A_ = ch.choice(ok_t, "A") if ok_t else f["params"][0][0]
+            narrow_signed = [a for a in ok_t if a[0] == "s" and all(a[1] < pt[1] for pt, _ in f["params"])]
+            if narrow_signed and ch.chance(1, 2, "narrow-signed-operand"):
+                A_ = ch.choice(narrow_signed, "A-narrow")       # both conversions widen, each with its own signedness rule
             v = fresh(0)
             stmts.append(("decl", A_, v, ("cast", A_, ("reg", "RssV", ("s", 64)))))
             out = fresh(5)
